@@ -537,11 +537,71 @@ Proof.
 Qed.
 
 (* ------------------------------------------------------------------ one wavelength of a compound *)
-(* what is asked of the composition: positive counts and masses, records that serve *)
+(* what is asked of the composition: non-negative counts, not all zero, positive masses, records
+   that serve *)
 Definition cell_ok (D : ndata) (d : dict) : Prop :=
-  d <> [] /\
-  forall p, In p d -> (0 < snd p)%Q /\ (0 < e_mass (nd_env D) (fst p))%Q
-                      /\ rec_okb D (az (fst p)) (aa (fst p)) = true.
+  (forall p, In p d -> (0 <= snd p)%Q /\ (0 < e_mass (nd_env D) (fst p))%Q
+                       /\ rec_okb D (az (fst p)) (aa (fst p)) = true) /\
+  (exists p, In p d /\ (0 < snd p)%Q).
+
+Lemma all_some_in_fwd : forall {A B} (g : A -> option B) d l, all_some (map g d) = Some l ->
+  forall p, In p d -> exists c, g p = Some c /\ In c l.
+Proof.
+  intros A B g. induction d as [|q r IH]; intros l H p Hin; [destruct Hin|]. cbn [map all_some] in H.
+  destruct (g q) as [c0|] eqn:Eg; [|discriminate].
+  destruct (all_some (map g r)) as [l'|] eqn:Er; [|discriminate]. inversion H; subst l.
+  destruct Hin as [E|Hin].
+  - subst q. exists c0. split; [exact Eg|left; reflexivity].
+  - destruct (IH l' eq_refl p Hin) as (c & Hc & Hl). exists c. split; [exact Hc|right; exact Hl].
+Qed.
+
+Lemma sum_nonneg : forall (f : comp -> R) l, (forall c, In c l -> 0 <= f c) -> 0 <= sum f l.
+Proof.
+  intros f l H. induction l as [|c r IH]; simpl; [lra|].
+  assert (0 <= f c) by (apply H; left; reflexivity).
+  assert (0 <= sum f r) by (apply IH; intros x Hx; apply H; right; exact Hx). lra.
+Qed.
+Lemma sum_pos_one : forall (f : comp -> R) l, (forall c, In c l -> 0 <= f c) ->
+  (exists c, In c l /\ 0 < f c) -> 0 < sum f l.
+Proof.
+  intros f l H (c & Hin & Hc). induction l as [|c0 r IH]; [destruct Hin|]. simpl.
+  assert (0 <= f c0) by (apply H; left; reflexivity).
+  assert (0 <= sum f r) by (apply sum_nonneg; intros x Hx; apply H; right; exact Hx).
+  destruct Hin as [E|Hin]; [subst c0; lra|].
+  assert (0 < sum f r) by (apply IH; [intros x Hx; apply H; right; exact Hx|exact Hin]). lra.
+Qed.
+
+(* the facts about the documented cell that the algebra needs *)
+Lemma cell_facts : forall D w d l, cell_ok D d -> tab_cell D w d = Some l ->
+  0 < n_total l /\ 0 < molar_mass l /\ sum (fun c => c_n c * c_im c) l <= 0 /\ 0 <= sigma_s l /\ b_im l <= 0.
+Proof.
+  intros D w d l [Hd (p0 & Hp0 & Hpos)] Hl.
+  assert (Hfacts : forall c, In c l -> 0 <= c_n c /\ 0 < c_m c /\ c_im c <= 0 /\ 0 <= c_ss c).
+  { intros c Hin. destruct (all_some_in (tab_comp D w) d l Hl c Hin) as (p & Hp & Hc).
+    destruct (Hd p Hp) as (Hcnt & Hmass & Hok).
+    destruct (tab_comp_facts D w p c Hok Hc) as (E1 & E2 & E3 & E4).
+    rewrite E1, E2. repeat split; [|apply Q2R_pos; exact Hmass|exact E3|exact E4].
+    apply Qle_Rle in Hcnt. rewrite RMicromega.Q2R_0 in Hcnt. exact Hcnt. }
+  destruct (all_some_in_fwd (tab_comp D w) d l Hl p0 Hp0) as (c0 & Hc0 & Hin0).
+  destruct (Hd p0 Hp0) as (_ & _ & Hok0).
+  destruct (tab_comp_facts D w p0 c0 Hok0 Hc0) as (E1 & _ & _ & _).
+  assert (Hc0pos : 0 < c_n c0) by (rewrite E1; apply Q2R_pos; exact Hpos).
+  assert (Hn : 0 < n_total l).
+  { unfold n_total. apply sum_pos_one; [intros c Hin; exact (proj1 (Hfacts c Hin))|].
+    exists c0. split; assumption. }
+  assert (Him : sum (fun c => c_n c * c_im c) l <= 0).
+  { apply sum_nonpos. intros c Hin. destruct (Hfacts c Hin) as (H1 & _ & H3 & _). nra. }
+  repeat split.
+  - exact Hn.
+  - unfold molar_mass. apply sum_pos_one.
+    + intros c Hin. destruct (Hfacts c Hin) as (H1 & H2 & _). nra.
+    + exists c0. split; [exact Hin0|]. destruct (Hfacts c0 Hin0) as (_ & H2 & _). nra.
+  - exact Him.
+  - unfold sigma_s. apply Rmult_le_pos; [|left; apply Rinv_0_lt_compat; exact Hn].
+    apply sum_nonneg. intros c Hin. destruct (Hfacts c Hin) as (H1 & _ & _ & H4). nra.
+  - unfold b_im. unfold Rdiv. rewrite <- (Rmult_0_l (/ n_total l)).
+    apply Rmult_le_compat_r; [left; apply Rinv_0_lt_compat; exact Hn|exact Him].
+Qed.
 
 Theorem compound_refines : forall D d rho w o ps,
   wl_pos w -> (0 < rho)%Q -> cell_ok D d ->
@@ -549,7 +609,7 @@ Theorem compound_refines : forall D d rho w o ps,
   exists l, tab_cell D w d = Some l /\
             map ev (outs_list o) = outputs (Q2R NAq) l (Q2R rho) (wl_R w).
 Proof.
-  intros D d rho w o ps Hw Hrho [Hne Hd] H. unfold compound_at in H.
+  intros D d rho w o ps Hw Hrho Hcell H. pose proof Hcell as [Hd _]. unfold compound_at in H.
   destruct (all_some (map (atom_piece D w) d)) as [ps'|] eqn:Eps; [|discriminate].
   cbn [bind] in H. inversion H; subst o ps'. clear H.
   set (l := map evalC ps). exists l.
@@ -574,21 +634,9 @@ Proof.
   { cbn [evalR]. rewrite Hn. unfold model_N. rewrite !ev_cq. f_equal. f_equal. f_equal. f_equal.
     unfold l. apply ev_acc_sum. intro c. reflexivity. }
   rewrite HN, (ev_wl_expr w Hw).
-  (* facts about the cell *)
-  assert (Hfacts : forall c, In c l -> 0 < c_n c /\ 0 < c_m c /\ c_im c <= 0 /\ 0 <= c_ss c).
-  { intros c Hin. destruct (all_some_in (tab_comp D w) d l Hl c Hin) as (p & Hp & Hc).
-    destruct (Hd p Hp) as (Hcnt & Hmass & Hok).
-    destruct (tab_comp_facts D w p c Hok Hc) as (E1 & E2 & E3 & E4).
-    rewrite E1, E2. repeat split; [apply Q2R_pos; exact Hcnt|apply Q2R_pos; exact Hmass|exact E3|exact E4]. }
-  assert (Hlne : l <> []).
-  { intro E. apply Hne. pose proof (all_some_length _ _ _ Hl) as Hlen. rewrite E in Hlen.
-    destruct d; [reflexivity|discriminate]. }
-  apply calc_is_spec.
+  destruct (cell_facts D w d l Hcell Hl) as (F1 & F2 & F3 & _ & _).
+  apply calc_is_spec; try assumption.
   - exact NA_pos.
   - apply Q2R_pos. exact Hrho.
   - apply (wl_R_pos EF_R_pos). exact Hw.
-  - unfold n_total. apply sum_pos; [exact Hlne|]. intros c Hin. exact (proj1 (Hfacts c Hin)).
-  - unfold molar_mass. apply sum_pos; [exact Hlne|]. intros c Hin.
-    destruct (Hfacts c Hin) as (H1 & H2 & _). apply Rmult_lt_0_compat; assumption.
-  - apply sum_nonpos. intros c Hin. destruct (Hfacts c Hin) as (H1 & _ & H3 & _). nra.
 Qed.
